@@ -3,6 +3,7 @@ package main
 // Symbolic execution of go/ssa function bodies into verification conditions.
 
 import (
+	"context"
 	"fmt"
 	"go/constant"
 	"go/token"
@@ -617,8 +618,8 @@ func (e *Exec) runBlock(st *State, fr *Frame, b *ssa.BasicBlock, prev *ssa.Basic
 			fr2 := fr.clone()
 			st.Assume(c)
 			st2.Assume(Not(c))
-			out := e.runBlock(st, fr, b.Succs[0], b, 0)
-			out = append(out, e.runBlock(st2, fr2, b.Succs[1], b, 0)...)
+			out := e.runBranch(st, fr, b.Succs[0], b)
+			out = append(out, e.runBranch(st2, fr2, b.Succs[1], b)...)
 			return out
 		case *ssa.Jump:
 			return e.runBlock(st, fr, b.Succs[0], b, 0)
@@ -1674,4 +1675,57 @@ func sortedKeys(m map[string]bool) []string {
 	}
 	sort.Strings(ks)
 	return ks
+}
+
+// runBranch explores one side of a fork. If the exploration leaves the supported subset, the branch is first checked
+// for feasibility (one solver call): code that the path condition rules out (a slow path excluded by the precondition,
+// say) need not be modelled, and is skipped with a note instead of failing the whole function closed.
+func (e *Exec) runBranch(st *State, fr *Frame, succ, from *ssa.BasicBlock) (out []Outcome) {
+	if e.specMode > 0 || e.discovery > 0 {
+		return e.runBlock(st, fr, succ, from, 0)
+	}
+	atFork := append(append([]*Term{}, st.pc...), st.facts...)
+	nObls := len(e.obls)
+	defer func() {
+		if x := recover(); x != nil {
+			if u, ok := x.(Unsupported); ok && infeasible(atFork) {
+				e.obls = e.obls[:nObls]
+				e.note("SKIPPED an infeasible branch that leaves the supported subset (" + u.Error() + ") in " + e.curFn)
+				out = nil
+				return
+			}
+			panic(x)
+		}
+	}()
+	return e.runBlock(st, fr, succ, from, 0)
+}
+
+// infeasible: do the solvers refute the conjunction (within a few seconds)?
+func infeasible(ts []*Term) bool {
+	asserts := append([]*Term{}, ts...)
+	asserts = append(asserts, boundFactsFor(asserts...)...)
+	p := NewPrinter()
+	q := p.Query(asserts, nil)
+	f, err := os.CreateTemp("", "govc-feas-*.smt2")
+	if err != nil {
+		return false
+	}
+	defer os.Remove(f.Name())
+	f.WriteString(q)
+	f.Close()
+	for _, s := range solvers {
+		if !s.ok(q) {
+			continue
+		}
+		ctx, cancel := context.WithCancel(context.Background())
+		v, _, _ := runSolver(ctx, s, 8, f.Name())
+		cancel()
+		if v == "unsat" {
+			return true
+		}
+		if v == "sat" {
+			return false
+		}
+	}
+	return false
 }
